@@ -5,10 +5,13 @@ use crate::{
     subscribe::{self, Context},
 };
 use format::{FmtSpan, TimingDisplay};
+#[cfg(not(tokio_rs_tracing_verif))]
+use std::time::Instant;
 use std::{
     any::TypeId, cell::RefCell, env, fmt, io, marker::PhantomData, ops::Deref, ptr::NonNull,
-    time::Instant,
 };
+#[cfg(tokio_rs_tracing_verif)]
+use tracing_core::__verif::Instant;
 use tracing_core::{
     field,
     span::{Attributes, Current, Id, Record},
